@@ -47,14 +47,22 @@ SHARED = "shared-pull-component-merges-requests"
 
 
 def e1_known_sig(sc, v):
-    """Scheduling/data oracles of a component that reads (transitively) through a pull-based
-    component serving two or more consumer links."""
+    """The recorded finding covers FAILING pulls (FinamTimeError; the None-sum AttributeError of SumOverTime on
+    a duplicated request) of a component that reads through a pull-based component serving two or more consumer
+    links whose merged request stream, as observed in this run, went backwards in time or carried duplicates into
+    a stateful adapter.  Silent wrong values, wrong schedules or wrong request times are never excused."""
     comp = v.get("comp") or ""
-    if v["oracle"] in ("update-raises", "update-raises-other", "run-raises", "req-mismatch",
-                       "extrapolating-get", "req-unmet", "illegal-update", "model-series-differs",
-                       "order-series-differs", "order-outcome-differs") and comp and \
-            shared_pull_upstream(sc, comp) and v.get("shared_ctx") in ("nonmono", "dup-stateful"):
-        # only when the merged request stream observed in this run really went backwards in time (or
-        # carried duplicates into a stateful adapter); a shared component with a monotone stream works
+    if not comp or not shared_pull_upstream(sc, comp) or v.get("shared_ctx") not in ("nonmono", "dup-stateful"):
+        return None
+    o, k = v["oracle"], v.get("kind")
+    timeerr = k == "FinamTimeError"
+    none_sum = k == "AttributeError" and "to_reduced_units" in v.get("msg", "") and v.get("shared_ctx") == "dup-stateful"
+    if o in ("update-raises", "run-raises", "weighted-sum") and timeerr:
         return SHARED
+    if o in ("update-raises-other", "run-raises") and none_sum:
+        return SHARED
+    if o == "model-series-differs" and k == "refuse" and v.get("shared_ctx") == "dup-stateful":
+        return SHARED       # the ideal link refuses an empty integration interval, finam answers something
+    if o == "extrapolating-get":
+        return SHARED       # always accompanied by the failing pull above
     return None
